@@ -444,6 +444,32 @@ fn op_end() {
     OP_STARTED_MS.store(0, std::sync::atomic::Ordering::Relaxed);
 }
 
+/// Output wrapper: time spent blocked in `write` (a slow consumer on a pipe) must not count as the
+/// crate hanging, so the watchdog clock is stopped while writing and restarted afterwards.
+struct WatchOut<W: Write>(W);
+
+impl<W: Write> Write for WatchOut<W> {
+    fn write(&mut self, buf: &[u8]) -> io::Result<usize> {
+        use std::sync::atomic::Ordering;
+        let active = OP_STARTED_MS.swap(0, Ordering::Relaxed) != 0;
+        let r = self.0.write(buf);
+        if active {
+            op_begin(OP_LINE.load(Ordering::Relaxed));
+        }
+        r
+    }
+
+    fn flush(&mut self) -> io::Result<()> {
+        use std::sync::atomic::Ordering;
+        let active = OP_STARTED_MS.swap(0, Ordering::Relaxed) != 0;
+        let r = self.0.flush();
+        if active {
+            op_begin(OP_LINE.load(Ordering::Relaxed));
+        }
+        r
+    }
+}
+
 fn run_script(input: impl BufRead, out: &mut impl Write) {
     let case_id = std::sync::Arc::new(std::sync::Mutex::new(String::new()));
     start_watchdog(case_id.clone());
@@ -877,7 +903,8 @@ fn main() {
         }
         Some("run") => {
             let stdin = io::stdin();
-            run_script(stdin.lock(), &mut out);
+            let mut wout = WatchOut(out);
+            run_script(stdin.lock(), &mut wout);
         }
         Some("ptable") => {
             let bg: usize = args.get(2).map(|s| s.parse().unwrap()).unwrap_or(0);
